@@ -982,6 +982,9 @@ func (s *Sim) opTable() []opEntry {
 		{"setpolicy", func() { s.opSetPolicy(false) }}, {"setsubpolicy", func() { s.opSetPolicy(true) }},
 		{"plan_add", s.opPlanAdd}, {"plan_del", s.opPlanDel}, {"param", s.opParam}, {"iprpc_data", s.opIprpcData}, {"fund_iprpc", s.opFundIprpc},
 		{"relay", s.opRelay}, {"relay_hostile", s.opRelayHostile},
+		{"param_burn", func() {
+			s.paramChange("rewards", "LeftoverBurnRate", fmt.Sprintf("\"0.%d\"", s.R.Intn(10)))
+		}},
 		{"param_epoch", func() {
 			if s.R.Intn(2) == 0 {
 				s.paramChange("epochstorage", "EpochBlocks", fmt.Sprintf("\"%d\"", 2+s.R.Intn(30)))
